@@ -49,6 +49,12 @@ def check_arms(ctx, rule, root, enum_suffix, store_variants, remove_variants, la
             touch = reaching_calls(F, b, pred, ctx.depth)
             for (bi, t) in data_sites(F, b, rx, sm_suffix):
                 arm = arm_of(b, arms, bi)
+                if arm is not None and not (arm[0].variants <= (store_variants | remove_variants)) and arm[0].variants:
+                    # fail closed: a data write in the arm of a command variant the rule has no TTL policy for
+                    ctx.bad(rule, "%s#%s:%s#unclassified-variant" % (fkey(root), what, "|".join(sorted(arm[0].variants))),
+                            "UNRECOGNISED-FORM: %s: the %s arm writes key-value data but the rule has no TTL policy for that variant (known: store %s, remove %s)"
+                            % (label, "|".join(sorted(arm[0].variants)), sorted(store_variants), sorted(remove_variants)), loc(b, bi))
+                    continue
                 if arm is None or not (arm[0].variants <= variants):
                     continue
                 vname = "|".join(sorted(arm[0].variants))
